@@ -134,6 +134,8 @@ func runC10(c *core.Ctx) {
 		{"internal/wasm", "TableInstance", "involvingModuleInstances", "internal/wasm", "TableInstance", "involvingModuleInstancesMutex"},
 		{"internal/engine/interpreter", "engine", "compiledFunctions", "internal/engine/interpreter", "engine", "mux"},
 		{"internal/engine/wazevo", "engine", "compiledModules", "internal/engine/wazevo", "engine", "mux"},
+		{"internal/engine/wazevo", "compiledModule", "refCount", "internal/engine/wazevo", "engine", "mux"},
+		{"internal/engine/interpreter", "engine", "compiledFunctionsRefs", "internal/engine/interpreter", "engine", "mux"},
 		{"internal/engine/wazevo", "engine", "sortedCompiledModules", "internal/engine/wazevo", "engine", "mux"},
 		{"internal/engine/wazevo", "sharedFunctions", "listenerBeforeTrampolines", "internal/engine/wazevo", "engine", "mux"},
 		{"internal/engine/wazevo", "sharedFunctions", "listenerAfterTrampolines", "internal/engine/wazevo", "engine", "mux"},
